@@ -661,10 +661,33 @@ def csg_motion(check, prog):
                     and df[0][0] == 'idx' and df[0][2] == num(i) and \
                     bool(calls_in(df[0], 'holopy.core.math.rotate_points'))
             detail = 'operand %s becomes %s' % (op, show(t)[:160])
+            if ok:
+                # rotated centre i = (centre + R(centres - centre))[i] with the two
+                # operand centres in order
+                nc = df[0][1]
+                ctr = intern(('attr', me, 'center'))
+                rp = calls_in(nc, 'holopy.core.math.rotate_points')
+                okn = len(rp) == 1 and tuple(rp[0][2][1:]) == ang and \
+                    is_sum(nc, ctr, rp[0])
+                if okn:
+                    d2 = as_difference(rp[0][2][0])
+                    cen = intern(('call', 'numpy.array', (('list', (
+                        ('attr', ('attr', me, 's1'), 'center'),
+                        ('attr', ('attr', me, 's2'), 'center'))),), ()))
+                    okn = d2 is not None and d2[1] == ctr and d2[0] in (
+                        cen, intern(('call', 'numpy.array', (('tuple', cen[2][0][1]),),
+                                     ())))
+                ok = okn
+                if not ok:
+                    detail = 'rotated centres are %s' % show(nc)[:160]
     check.require(ok, 'K1-csg-operands-keep-their-slots', 'CsgScatterer.rotated',
                   'operand i is moved by (its rotated centre i - its own centre) and '
                   'rotated by the same angles, and stays in slot i', prog.loc(q, fd),
                   fail_detail=detail)
+    index_background(check, prog)
+
+
+def index_background(check, prog):
     # index_at: outside the scatterer the index is the background
     q = SC + 'scatterer.Scatterer.index_at'
     fd = prog.func(q)
